@@ -497,6 +497,9 @@ fn gen_bridge(mut input: ItemMod) -> ItemMod {
         }
 
         Item::Impl(i) => {
+            // Attributes on the impl block itself (`diplomat::attr`, `diplomat::abi_rename`, ...) are
+            // inherited by its methods on the diplomat-tool side; rustc must not see them.
+            let _attrs = AttributeInfo::extract(&mut i.attrs);
             for item in &mut i.items {
                 if let syn::ImplItem::Fn(ref mut m) = *item {
                     let info = AttributeInfo::extract(&mut m.attrs);
